@@ -47,7 +47,7 @@ def run(tier, seed, replay=None):
         "C05", tier, seed, replay, "c05", PROP_FILE, THEOREMS,
         "formatting panicked, or refused a well-formed input / accepted an erroneous one",
         ["the parser (typst_syntax::parse) terminates and returns a tree; native stack depth and allocation failure are runtime "
-         "behaviour the model cannot exhibit (nested families are run to depth 16 (quick) / 64 (thorough) as a test)",
+         "behaviour the model cannot exhibit (nested families are run to depth 32 (quick) / 64 (thorough) as a test; a case that does not answer within 60 s counts as a hang and is reported)",
          "C05_total: no Panic site of the model is reachable from a well-formed tree that satisfies the schema clause swfc; swfc is "
          "evaluated on every parsed tree, and the model's ok / refused / panicked class is compared with the implementation's on every case"],
         post=post)
